@@ -82,6 +82,21 @@ pub fn make_block(prev: &BlockHeader, height: u32, salt: u32, mut txs: Vec<Trans
     Block { header, txdata: all }
 }
 
+/// Like `make_block`, but the first block of a difficulty period (height a multiple of 2016)
+/// really changes the target: twice as easy as its predecessor's (allowed: within a factor of four,
+/// and the predecessors used with this are at least twice as hard as the network maximum).
+pub fn make_block_retargeting(prev: &BlockHeader, height: u32, salt: u32, mut txs: Vec<Transaction>) -> Block {
+    let mut all = vec![coinbase(height, salt)];
+    all.append(&mut txs);
+    let bits = if height % 2016 == 0 {
+        crate::chain13::shift_target(lightning_signer::bitcoin::Target::from_compact(prev.bits), true, 1).to_compact_lossy()
+    } else {
+        prev.bits
+    };
+    let header = mine(prev.block_hash(), merkle_root(&all), bits, 0);
+    Block { header, txdata: all }
+}
+
 pub fn filter_header_of(block: &Block, prev_filter_header: &FilterHeader) -> FilterHeader {
     BlockSpendFilter::from_block(block).filter_header(prev_filter_header)
 }
